@@ -1,5 +1,6 @@
 #include "rdl_theory.h"
 #include "rdl_value_listener.h"
+#include "verif.h"
 #include <algorithm>
 #include <stdexcept>
 #include <cassert>
@@ -53,6 +54,7 @@ namespace smt
             const auto dst_cnst = new rdl_distance(ctr_lit, from, to, dist);
             var_dists.emplace(ctr, dst_cnst);
             dist_constrs[{from, to}].emplace_back(dst_cnst);
+            VERIF_HOOK(dl_distance(1, ctr, from, to, inf_rational(dist)));
             return ctr_lit;
         }
     }
